@@ -355,3 +355,87 @@ func h2BindResponseLost(t *testing.T, vt *vhT) {
 		w.shutdown()
 	})
 }
+
+// h2BindPipelined (C16; monitor only): the client writes its first stream bytes right behind the ConnectionBind request, in the same
+// TCP segment (it knows realm and nonce from the control connection, nothing forces it to wait).  Once bound, the bytes of the data
+// connection reach the peer unmodified and in order - including those the server had already read together with the request.
+func h2BindPipelined(t *testing.T, vt *vhT) {
+	synctest.Test(t, func(t *testing.T) {
+		vt.Note("bind-pipelined scenario")
+		lis := []*h2Listener{{stream: true, ip: net.ParseIP("10.0.0.1").To4()}}
+		w := newH2World(vt, ServerConfig{}, lis, true, false)
+		h := &h2Hist{vt: vt, w: w, lastTid: map[string]int{}, owner: map[string]string{}}
+		nonce, _ := w.srv.nonceHash.Generate()
+		cr := &h2Cred{mi: true, nonce: true, nonceOK: true, realm: true, uname: true, known: true, macOK: true, user: "alice", nonceVal: nonce, pass: h2Users["alice"]}
+		a := w.client(0, net.ParseIP("10.0.0.2").To4(), 4000)
+		peerIP := net.ParseIP("10.0.0.9").To4()
+		pl := w.peerListener(peerIP, 9000)
+		peer := proto.PeerAddress{IP: peerIP, Port: 9000}
+		last := func(c *h2Client) *stun.Message {
+			synctest.Wait()
+			fr, _ := c.takeFrames()
+			if len(fr) == 0 {
+				return nil
+			}
+			m := &stun.Message{Raw: fr[len(fr)-1]}
+			if m.Decode() != nil {
+				return nil
+			}
+			return m
+		}
+		send := func(c *h2Client, typ stun.MessageType, attrs ...stun.Setter) *stun.Message {
+			h.tid++
+			c.sendRaw(h.build(typ, h.tid, cr, attrs...))
+			return last(c)
+		}
+		if r := send(a, stun.NewType(stun.MethodAllocate, stun.ClassRequest), proto.RequestedTransport{Protocol: proto.ProtoTCP}); r == nil || r.Type.Class != stun.ClassSuccessResponse {
+			vt.Alarm("h2-setup", "bind-pipelined: Allocate(TCP) failed")
+			w.shutdown()
+			return
+		}
+		_ = send(a, stun.NewType(stun.MethodCreatePermission, stun.ClassRequest), peer)
+		r := send(a, stun.NewType(stun.MethodConnect, stun.ClassRequest), peer)
+		var cid proto.ConnectionID
+		if r == nil || r.Type.Class != stun.ClassSuccessResponse || cid.GetFrom(r) != nil {
+			vt.Alarm("h2-setup", "bind-pipelined: Connect failed")
+			w.shutdown()
+			return
+		}
+		var peerEnd net.Conn
+		select {
+		case peerEnd = <-pl.acc:
+		default:
+		}
+		// the data connection: ConnectionBind is written, then the connection is reset before the server answers
+		da, db, err := w.n.dial(&net.TCPAddr{IP: net.ParseIP("10.0.0.2").To4(), Port: 7100}, w.lisAddr(0).(*net.TCPAddr), "", "")
+		if err != nil {
+			vt.Alarm("h2-setup", "bind-pipelined: data connection: %v", err)
+			w.shutdown()
+			return
+		}
+		_ = db
+		h.tid++
+		req := h.build(stun.NewType(stun.MethodConnectionBind, stun.ClassRequest), h.tid, cr, cid)
+		_, _ = da.Write(append(append([]byte{}, req...), []byte("HELLO-FROM-CLIENT:")...))
+		synctest.Wait()
+		_, _ = da.Write([]byte("second-part"))
+		synctest.Wait()
+		got := ""
+		if pc, ok := peerEnd.(*simConn); ok && pc != nil {
+			_ = pc.SetDeadline(time.Now())
+			buf := make([]byte, 256)
+			for {
+				n, rerr := pc.Read(buf)
+				got += string(buf[:n])
+				if rerr != nil || n == 0 {
+					break
+				}
+			}
+		}
+		if got != "HELLO-FROM-CLIENT:second-part" {
+			vt.Alarm("bind-pipelined-bytes-lost", "the client sent %q right behind its ConnectionBind request and then %q: the peer received %q", "HELLO-FROM-CLIENT:", "second-part", got)
+		}
+		vt.Stat("bindpipelined.scenarios")
+		w.shutdown()
+	})
+}
